@@ -28,7 +28,11 @@ func main() {
 		if len(os.Args) > 3 {
 			fmt.Sscan(os.Args[3], &rot)
 		}
-		oracle.RunRegHistory(strings.Split(id, ","), rot)
+		var objs []string
+		if len(os.Args) > 4 && os.Args[4] != "" {
+			objs = strings.Split(os.Args[4], ";")
+		}
+		oracle.RunRegHistory(strings.Split(id, ","), rot, objs)
 	case "run":
 		fs := flag.NewFlagSet("run", flag.ExitOnError)
 		tier := fs.String("tier", "quick", "")
